@@ -1550,6 +1550,8 @@ class Interp:
                     return h(container, x)
                 raise OutsideSubset("symbolic key lookup in dict")
             return x in container
+        if isinstance(container, (type({}.values()), type({}.keys()))):
+            container = list(container)
         if isinstance(container, (list, tuple, set, frozenset)):
             if not has_sym(x) and not has_sym(container):
                 return x in container
